@@ -46,6 +46,8 @@ ASSUMPTIONS = [
     "whose first characters occur in 'RSA1024:' / 'ED25519-V3:' can be supplied; create() of an authenticated v2 service cannot complete there "
     "and is not judged) and auth-service-id-not-derived-from-key (the ServiceID returned for a BasicAuth service is not the hash of its key; "
     "HS_DESC events name the key-derived id); the per-ADD_ONION / DEL_ONION oracle is unchanged in both",
+    "cells with caller_mutates_after_call: the ports list (and the list the AuthBasic was built from) is overwritten right after create() / "
+    "Tor.create_onion_service() returned, before any reply is delivered; 'requested' means the arguments as they were at call time",
     "cells with tor_non_anonymous drive txtorcon.Tor(reactor, proto, _non_anonymous=True/False).create_onion_service with single_hop "
     "False/None/True; the reference Tor is in the mode the Tor object states, so a request that does not match it is refused by Tor and "
     "only the command content is judged: the flags must follow the REQUEST",
@@ -74,7 +76,7 @@ ANCHORS = [
 FLOORS = {
     "quick": {"evaluations": 1500, "add_onion_decoded": 800, "del_onion_decoded": 600, "custody_snapshots": 3000,
               "crlf_cells_checked": 500, "hostname_compared": 600, "generated_key_retention_checked": 150,
-              "history_creations": 120, "request_objects_compared": 300,
+              "history_creations": 120, "request_objects_compared": 300, "caller_mutated_arguments_after_call": 20,
               "reach:txtorcon.onion:_add_ephemeral_service": 1000,
               "reach:txtorcon.onion:_validate_single_port_string": 1500},
     "thorough": {"evaluations": 3000, "add_onion_decoded": 2000, "del_onion_decoded": 1500, "custody_snapshots": 6000,
@@ -148,6 +150,13 @@ def all_cells():
         yield {"route": "auth", "version": 2, "key": key, "detach": detach, "single_hop": False,
                "auth": a, "clients": auth_clients(a), "ports_id": pl, "ports": PORT_LISTS[pl], "await_all": aw,
                "server_variant": "auth-service-id-not-derived-from-key"}
+    # the caller mutates / re-uses its argument objects right after the call returned (for Tor.create_onion_service
+    # the call is then still parked on the TorConfig bootstrap): the command must reflect the arguments at call time
+    for route, version, pl in itertools.product(ROUTES, (2, 3), sorted(PORT_LISTS)):
+        a = "b2" if route == "auth" else None
+        yield {"route": route, "version": version, "key": "none", "detach": False, "single_hop": False,
+               "auth": a, "clients": auth_clients(a) if a else None, "ports_id": pl, "ports": PORT_LISTS[pl],
+               "await_all": False, "caller_mutates_after_call": True}
     # state on the txtorcon.Tor object (_non_anonymous, as set by launch(non_anonymous_mode=...)) x the request
     for tna, single, version, key, detach, pl in itertools.product(
             (True, False), (False, None, True), (2, 3), ("none", "discard", "bare"), (False, True), SMALL_PORTS):
@@ -249,6 +258,8 @@ def variant_class(cell):
     out = []
     if cell.get("server_variant"):
         out.append("server-variant-" + cell["server_variant"])
+    if cell.get("caller_mutates_after_call"):
+        out.append("caller-mutates-arguments-after-call")
     if "tor_non_anonymous" in cell:
         out.append("tor-object-non-anonymous=%s+single_hop=%s" % (cell["tor_non_anonymous"], cell["single_hop"]))
     return "+".join(out)
@@ -444,6 +455,13 @@ def run_cell(cell, rec, probe=False, ctx=None, objs=None, extra_class=None, inje
                 d = EphemeralAuthenticatedOnionService.create(reactor, cfg, ports, **kw)
             else:
                 d = EphemeralOnionService.create(reactor, cfg, ports, **kw)
+        if cell.get("caller_mutates_after_call"):
+            # the call has returned (it may be parked on the TorConfig bootstrap): the caller re-uses its
+            # argument objects; the request is what was passed at call time
+            ports[:] = ["9999 127.0.0.1:9", "9998 unix:/mutated/after/call"]
+            if route == "auth":
+                clients.append("late-client")
+            rec.count("caller_mutated_arguments_after_call")
         if objs is not None:
             objs.setdefault("ports", ports)
             if auth_obj is not None:
@@ -463,7 +481,7 @@ def run_cell(cell, rec, probe=False, ctx=None, objs=None, extra_class=None, inje
         def request_objects_check():
             # the caller's request objects after the creation: observed (counted), the verdict comes from
             # the ADD_ONION of the NEXT creation that re-uses them
-            if list(ports) != ports_before:
+            if list(ports) != ports_before and not cell.get("caller_mutates_after_call"):
                 rec.count("request_objects_mutated")
                 rec.seen("request_object_mutations", "ports-list/" + input_class(cell))
             if auth_obj is not None:
@@ -801,6 +819,8 @@ def random_cell(rnd):
         if version == 3:
             import base64
             cell["adv_blob"] = base64.b64encode(base64.b64decode(cell["adv_blob"][:86] + "==")).decode("ascii")
+    if rnd.random() < 0.1:
+        cell["caller_mutates_after_call"] = True
     if route == "tor" and rnd.random() < 0.5:
         cell["tor_non_anonymous"] = rnd.choice([True, False])
         cell["single_hop"] = rnd.choice([False, None, True])
